@@ -62,14 +62,16 @@ def tokInfo (toks : List TokDesc) (raw : Str) : TokInfo :=
       verdict := fun now => if !t.valid then .invalid else if now < t.accFrom then .invalid else if now ≤ t.accTo then .accept else .expired,
       exp := t.exp, email := t.email.map L, nonce := t.nonce.map L, groups := t.groups, roles := t.roles }
 
-/-- stand-in for gzip+base64: `<id|` ++ the pattern `id~id~…` cut to fit ++ `>`, of exactly the measured compressed
+/-- stand-in for gzip+base64: `<id|` ++ the numbered pattern `id~0~id~1~…` cut to fit ++ `>`, of exactly the measured compressed
     length, so that every chunk of the text is specific to the token.  `decompress` inverts exactly the well-formed texts
     and returns anything else unchanged (as `decompressToken` does for input that is not base64 of gzip): a truncated,
     concatenated or mixed text is *not* read back as a token. -/
 def standIn (t : Str) (n : Nat) : Str :=
   let m := n - t.length - 3
-  let pat := t ++ ['~']
-  '<' :: t ++ ['|'] ++ ((List.replicate (m / pat.length + 1) pat).flatten.take m) ++ ['>']
+  -- numbered blocks `id~k~`: no stretch of the text repeats, so a text with a chunk removed, swapped or replaced by the same
+  -- chunk of another token is never a well-formed text of a (shorter) length
+  let blocks := (List.range (m / (t.length + 3) + 1)).map (fun k => t ++ ['~'] ++ (toString k).toList ++ ['~'])
+  '<' :: t ++ ['|'] ++ (blocks.flatten.take m) ++ ['>']
 def compressWith (toks : List TokDesc) (t : Str) : Str :=
   standIn t (match findTok toks t with | some d => d.clen | none => (if t.isEmpty then 32 else t.length + 24))
 def decompressS (z : Str) : Str :=
